@@ -164,6 +164,9 @@ def normalize_hostname(hostname, normalize_amp=True):
         # NOTE: what follows can be a punycode label
         hostname = decode_punycode_hostname(hostname)
 
+        # NOTE: what follows can also start with irrelevant subdomains
+        hostname = pattern.sub("", hostname)
+
     return hostname
 
 
@@ -411,6 +414,10 @@ def normalize_url(
 
         # NOTE: what follows can be a punycode label
         hostname = decode_punycode_hostname(hostname)
+
+        # NOTE: what follows can also start with irrelevant subdomains
+        if strip_irrelevant_subdomains:
+            hostname = re.sub(IRRELEVANT_SUBDOMAIN_AMP_RE, "", hostname)
 
     # Dropping trailing slash
     if strip_trailing_slash and path.endswith("/"):
